@@ -13,6 +13,32 @@ GEN = ["w_GenEigsSolver", "w_GenEigsRealShiftSolver", "w_GenEigsComplexShiftSolv
 NOT_ENCODED = ["w_SymGEigsSolver_Cholesky", "w_SymGEigsSolver_RegularInverse", "w_SymGEigsShiftSolver_ShiftInvert", "w_SymGEigsShiftSolver_Buckling", "w_SymGEigsShiftSolver_Cayley"]
 
 
+CTOR_EXPR = {"w_SymEigsSolver": "Spectra::SymEigsSolver<Op> e(op, nev, ncv)", "w_SymEigsShiftSolver": "Spectra::SymEigsShiftSolver<Op> e(op, nev, ncv, 0.5)",
+             "w_HermEigsSolver": "Spectra::SymEigsSolver<Op> e(op, nev, ncv)", "w_GenEigsSolver": "Spectra::GenEigsSolver<Op> e(op, nev, ncv)",
+             "w_GenEigsRealShiftSolver": "Spectra::GenEigsRealShiftSolver<Op> e(op, nev, ncv, 0.5)", "w_GenEigsComplexShiftSolver": "Spectra::GenEigsComplexShiftSolver<Op> e(op, nev, ncv, 0.5, 0.5)"}
+
+
+def native_replay(ctx, fn, n, nev, ncv):
+    """runs the real constructor natively with the solver's (n, nev, ncv); returns 'throws' / 'constructed' / None"""
+    import subprocess
+    src = os.path.join(ctx.scratch, "replay_ctor_%s.cpp" % fn)
+    with open(os.path.join(D.VERIF, "irsym", "wrap_ctor.cpp")) as f:
+        head = f.read().split("extern \"C\" void sink")[0]
+    with open(src, "w") as g:
+        g.write(head + "#include <cstdio>\n#include <cstdlib>\nint main(int, char** a){ long n=atol(a[1]), nev=atol(a[2]), ncv=atol(a[3]); Op op{n};\n"
+                "try { %s; std::puts(\"constructed\"); } catch (const std::invalid_argument&) { std::puts(\"throws\"); } return 0; }\n" % CTOR_EXPR[fn])
+    exe = src[:-4]
+    if not os.path.exists(exe):
+        p = subprocess.run(["g++", "-std=c++17", "-O1", "-w", "-I" + os.path.join(D.REPO, "include"), "-I" + D.EIGEN, src, "-o", exe], stdout=subprocess.PIPE, stderr=subprocess.STDOUT, text=True)
+        if p.returncode != 0:
+            return None
+    try:
+        p = subprocess.run([exe, str(n), str(nev), str(ncv)], stdout=subprocess.PIPE, stderr=subprocess.STDOUT, text=True, timeout=20)
+        return p.stdout.strip().split("\n")[-1]
+    except Exception:
+        return None
+
+
 def post(ctx, spec):
     src = os.path.join(ctx.scratch, "wrap_ctor.cpp")
     with open(os.path.join(D.VERIF, "irsym", "wrap_ctor.cpp")) as f, open(src, "w") as g:
@@ -73,8 +99,21 @@ def post(ctx, spec):
             v, sv, secs, out = I.solve(I.smt(enc, [], q, ints[:3]), solvers=("z3", "z3-new", "cvc5"), cap=60)
             queries.append({"name": what + " (path %s)" % "-".join(p.trace[-3:]), "verdict": v, "solver": sv, "secs": round(secs, 3)})
             if v == "sat":
-                ctx.candidates.append(dict(case="irsym:" + fn, name=what, kind="regression", verdict="sat", scope="", site="", model=None, path="", detail="solver model: " + out.replace("\n", " ")[:200],
-                                           binary="", profile="double"))
+                import re as _re
+                vals = [int(x) for x in _re.findall(r"\|\s+\(?-?\s*(\d+)", out)][:3]
+                raw = _re.findall(r"\(\|[^|]+\|\s+(\(-\s*\d+\)|-?\d+)\)", out)
+                vals = []
+                for r_ in raw[:3]:
+                    r_ = r_.replace("(", "").replace(")", "").replace(" ", "")
+                    x = int(r_)
+                    vals.append(x - (1 << 64) if x >= (1 << 63) else x)
+                got = native_replay(ctx, fn, *vals) if len(vals) == 3 and fn in CTOR_EXPR and abs(vals[0]) < (1 << 40) else None
+                expect_bad = "throws" if p.outcome.startswith("throws") else "constructed"
+                if got == expect_bad:
+                    ctx.candidates.append(dict(case="irsym:" + fn, name=what, kind="regression", verdict="sat", scope="", site="", model=None, path="",
+                                               detail="native run of the real constructor with (n, nev, ncv) = %s: %s" % (vals, got), binary="", profile="double"))
+                else:
+                    ctx.inconclusive.append({"job": "irsym " + fn, "why": "counterexample %s for '%s' not reproduced natively (got %s)" % (vals, what, got)})
             elif v != "unsat":
                 ctx.inconclusive.append({"job": "irsym " + fn, "why": "no verdict for " + what})
         opaque = sorted(set(sum([p.opaque for p in paths], [])))
